@@ -163,6 +163,16 @@ pub(crate) fn run(seed: u64, n: u64, out: &mut Out) {
         // scripts stand where filter syncing stands (a caught-up store)
         net.storage.update_block_number(m0);
         for r in reg.iter_mut() { r.2 = m0; }
+        if rng.chance(1, 3) {
+            // one more script, registered from a block a little above current progress (inside one of the next batches)
+            let sid = rng.below(4) as usize;
+            let is_lock = rng.chance(2, 3);
+            if !reg.iter().any(|r| r.0 == sid && r.1 == is_lock) {
+                let from = m0 + rng.range(1, 6);
+                net.storage.update_filter_scripts(vec![ScriptStatus { script: pool[sid].clone(), script_type: if is_lock { ScriptType::Lock } else { ScriptType::Type }, block_number: from }], SetScriptsCommand::Partial);
+                reg.push((sid, is_lock, from));
+            }
+        }
 
         let steps = rng.range(3, 9);
         for _step in 0..steps {
@@ -288,10 +298,15 @@ pub(crate) fn run(seed: u64, n: u64, out: &mut Out) {
                 let got = indexed_cells(&net, &pool[sid], is_lock);
                 // cells created above the recorded number may be indexed already (a later block of the same batch); only look up to it
                 let got_upto: Vec<_> = got.iter().filter(|c| c.0 <= ss.block_number).cloned().collect();
-                if got_upto != expect {
-                    let missing: Vec<_> = expect.iter().filter(|c| !got_upto.contains(c)).map(|c| (c.0, c.1, c.2)).collect();
-                    let phantom: Vec<_> = got_upto.iter().filter(|c| !expect.contains(c)).map(|c| (c.0, c.1, c.2)).collect();
-                    let class = if what == "substituted-block-hash" { "C06-substituted-block-hash-skips-activity" } else { "C06-skipped-activity" };
+                // cells created at or before the script's start number may be indexed too (a block of the same batch matched
+                // for it): they are fine as long as they are live on the chain
+                let live_any = bc.live_cells(&pool[sid], is_lock, 0, ss.block_number);
+                let missing: Vec<_> = expect.iter().filter(|c| !got_upto.contains(c)).map(|c| (c.0, c.1, c.2)).collect();
+                let phantom: Vec<_> = got_upto.iter().filter(|c| !live_any.contains(c)).map(|c| (c.0, c.1, c.2)).collect();
+                if !missing.is_empty() || !phantom.is_empty() {
+                    // the same observation breaks C03 (index misses activity) and C09 (get_scripts reports a height past a skipped block);
+                    // the substituted-hash attack is listed once, under C06
+                    let class = if what == "substituted-block-hash" { "C06-substituted-block-hash-skips-activity" } else { "C06-skipped-activity] [C03-index-misses-activity-after-sync] [C09-script-reported-past-skipped-block" };
                     problems.push(format!("[{}] script {} ({}) is reported as filtered up to {} (registered from {}), but its index misses {:?} and has extra {:?} ({})", class, sid + 1, if is_lock { "lock" } else { "type" }, ss.block_number, from, missing, phantom, what));
                     break;
                 }
